@@ -110,17 +110,19 @@ KindsDiag == {S("ok"), S("warn"), S("err"), S("fatalI"), S("uwarn"), S("uerr"), 
               S("expect"), S("endexpect")}
              \cup {Ln("burstE", n, "", "") : n \in Bursts} \cup {Ln("burstW", 65536, "", ""), Ln("burstU", 2, "", ""), Ln("burstW", 2, "", "")}
 KindsSmall == {S("ok"), S("warn"), S("err"), S("uwarn"), S("ufatal"), S("fwd"), S("undef"), Ln("burstE", 2, "", "")}
-Flags == {"dotted"}                      \* model checking: one mode flag (all behave alike in the model)
+Flags == {"dotted", "switchocc"}         \* model checking: one ON/OFF flag and one per-target flag (SetCPUCore)
 Tables == {"macro", "func"}                 \* per-file tables: `flag f` defines an entry, `use f` needs it
 OpenKinds == {"if0", "if1", "mac", "rept", "sec", "str", "sav", "pha"}
 KindsHist == {S("ok"), S("err"), S("fwd"), S("expect")} \cup {Ln("flag", 0, f, "") : f \in Flags} \cup {Ln("probe", 0, f, "") : f \in Flags}
              \cup {Ln("flag", 0, f, "") : f \in Tables} \cup {Ln("use", 0, f, "") : f \in Tables}
              \cup {Ln("open", 0, "", t) : t \in OpenKinds}
 \* all mode flags the replay renders (model checking uses two of them: they behave alike in the model)
-FlagsAll == {"dotted", "relaxed", "padding", "supmode", "org", "radix", "charset", "sym", "cpu"}
+FlagsAll == {"dotted", "relaxed", "padding", "supmode", "org", "radix", "charset", "sym", "cpu",
+             "switchocc", "pageocc", "shiftocc"}
+TablesAll == Tables \cup {"onoff"}
 KindsHistAll == {S("ok"), S("err"), S("fwd"), S("expect")} \cup {Ln("flag", 0, f, "") : f \in FlagsAll}
                 \cup {Ln("probe", 0, f, "") : f \in FlagsAll} \cup {Ln("open", 0, "", t) : t \in OpenKinds}
-                \cup {Ln("flag", 0, f, "") : f \in Tables} \cup {Ln("use", 0, f, "") : f \in Tables}
+                \cup {Ln("flag", 0, f, "") : f \in TablesAll} \cup {Ln("use", 0, f, "") : f \in TablesAll}
 KindsAll == KindsDiag \cup KindsHist
 
 Finished == pc = "done"
